@@ -12,6 +12,7 @@ import (
 	"os"
 	"os/exec"
 	"path/filepath"
+	"runtime"
 	"sort"
 	"strings"
 	"sync"
@@ -21,6 +22,7 @@ import (
 	"verif/internal/cli"
 	"verif/internal/evid"
 	"verif/internal/gen"
+	"verif/internal/ostatic"
 	"verif/internal/runner"
 )
 
@@ -125,13 +127,30 @@ func runC16(prop, tier string) int {
 		cwd := cwdOf(j.dir, j.c)
 		outs := map[string]runner.Result{}
 		fmts := []string{"", "gofmt", "noop"}
-		if !j.c.Tree.NameMismatch {
-			fmts = append(fmts, "goimports")
-		}
 		for _, f := range fmts {
 			outs[f] = mq.Run(cwd, withFmt(j.c, f), runner.Opts{})
 		}
 		def := outs[""]
+		// goimports is compared unless the default output carries an unaliased import whose package name goimports
+		// cannot guess from the path (open finding KF-goimports-name-mismatch, exercised through its own input)
+		var outside runner.Result
+		ranOutside := false
+		if def.Exit == 0 && !goimportsHazard(j.lt, j.c) {
+			outs["goimports"] = mq.Run(cwd, withFmt(j.c, "goimports"), runner.Opts{})
+			// once more from a directory outside the module, source directory given as an absolute path
+			if j.c.Dest == 0 || j.c.Dest == 1 { // -pkg probing is relative to the working directory; keep to in-place requests
+				c2 := *j.c
+				c2.Fmt = "goimports"
+				args := c2.Args()
+				for k, a := range args {
+					if a == "." || a == "./"+j.c.Tree.SrcDir {
+						args[k] = filepath.Join(j.dir, j.c.Tree.SrcDir)
+					}
+				}
+				outside = mq.Run(work, args, runner.Opts{})
+				ranOutside = true
+			}
+		}
 		if def.TimedOut {
 			run.Inconc("watchdog")
 			return
@@ -188,6 +207,18 @@ func runC16(prop, tier string) int {
 				}
 			}
 			run.Add("goimports_comparisons", 1)
+			if ranOutside {
+				run.Add("goimports_runs_from_outside_the_module", 1)
+				if outside.Exit != 0 {
+					v = append(v, "-fmt goimports run from outside the module fails: "+firstLine(string(outside.Stderr)))
+				} else if !bytes.Equal(outside.Stdout, gi.Stdout) {
+					p1, _, _ := bodyAfterImports(def.Stdout)
+					p3, _, _ := bodyAfterImports(outside.Stdout)
+					if strings.Join(p1, ",") != strings.Join(p3, ",") {
+						v = append(v, fmt.Sprintf("-fmt goimports run from outside the module imports %v, the default output imports %v", p3, p1))
+					}
+				}
+			}
 		}
 		key := ""
 		nm := 0
@@ -214,6 +245,37 @@ func runC16(prop, tier string) int {
 	})
 	runKnownC16(run, mq, work)
 	return run.Finish()
+}
+
+// goimportsHazard reports whether a correct output for the request must carry an unaliased import whose package
+// name differs from what goimports assumes from the import path when it cannot load the package. It is computed
+// from the interfaces' own go/types signatures and the source files' aliases, not from what moq emitted.
+func goimportsHazard(lt *ostatic.Tree, c *gen.Case) bool {
+	var names []string
+	for _, i := range c.Ifaces {
+		names = append(names, i.Name)
+	}
+	aliases := lt.AllAliases(c.Tree.SrcPath)
+	for _, p := range ostatic.RequiredImports(lt, c.Tree.SrcPath, names) {
+		lp, ok := lt.Pkgs[p]
+		if !ok {
+			continue // std: the name is the path base
+		}
+		aliased := false
+		for _, al := range aliases[p] {
+			if al != "." && al != "_" {
+				aliased = true
+			}
+		}
+		if !aliased && gen.AssumedName(p) != lp.Name {
+			return true
+		}
+	}
+	// the source package itself is imported under its own name when generating into another package
+	if c.Dest >= 2 && gen.AssumedName(c.Tree.SrcPath) != c.Tree.SrcName {
+		return true
+	}
+	return false
 }
 
 func firstDiff(a, b []byte) string {
@@ -300,6 +362,11 @@ type libJob struct {
 	// Edit, when set, is applied after the first generation: file (relative to Dir) gets Old replaced by New.
 	// Writer selects the writer handed to Mock: "" (buffer), "count", or "fail:<n>" (fails after n bytes).
 	Writer   string `json:"writer,omitempty"`
+	// Concurrent > 1: the job is generated by that many goroutines at once, each with its own fresh Mocker and a
+	// slow writer (absolute SrcDir required: no chdir).
+	Concurrent int `json:"concurrent,omitempty"`
+	// Group: requests generated at the same time, one goroutine and one fresh Mocker each, Concurrent rounds.
+	Group []libJob `json:"group,omitempty"`
 	EditFile string `json:"edit_file,omitempty"`
 	EditOld  string `json:"edit_old,omitempty"`
 	EditNew  string `json:"edit_new,omitempty"`
@@ -351,6 +418,10 @@ func libDriver(jobFile string) int {
 		return w.buf.String(), "", ""
 	}
 	for i, j := range jobs {
+		if len(j.Group) > 0 {
+			results[i] = concurrentGen(j)
+			continue
+		}
 		if err := os.Chdir(j.Dir); err != nil {
 			results[i].Errs = []string{err.Error()}
 			continue
@@ -384,6 +455,83 @@ func libDriver(jobFile string) int {
 		return 2
 	}
 	return 0
+}
+
+// slowWriter hands the bytes over in small chunks and yields in between, so that a generator that still owns
+// (or has already given away) the memory behind them overlaps with other generators.
+type slowWriter struct{ buf bytes.Buffer }
+
+func (w *slowWriter) Write(p []byte) (int, error) {
+	for off := 0; off < len(p); off += 512 {
+		end := off + 512
+		if end > len(p) {
+			end = len(p)
+		}
+		w.buf.Write(p[off:end])
+		runtime.Gosched()
+	}
+	return len(p), nil
+}
+
+// concurrentGen runs the requests of j.Group at the same time, each in its own goroutine with its own fresh
+// Mocker, j.Concurrent times over. Outputs[k] is the output of member k in the last round that differed from its
+// first round, or its first output; a difference between rounds is reported through Errs.
+func concurrentGen(j libJob) libResult {
+	var res libResult
+	n := len(j.Group)
+	res.Outputs = make([]string, n)
+	res.Errs = make([]string, n)
+	var pmu sync.Mutex
+	for round := 0; round < j.Concurrent; round++ {
+		var wg, loaded sync.WaitGroup
+		start := make(chan struct{})
+		loaded.Add(n)
+		go func() { loaded.Wait(); close(start) }()
+		outs := make([]string, n)
+		errs := make([]string, n)
+		for g := 0; g < n; g++ {
+			wg.Add(1)
+			go func(g int) {
+				defer wg.Done()
+				defer func() {
+					if r := recover(); r != nil {
+						pmu.Lock()
+						res.Panic = fmt.Sprint(r)
+						pmu.Unlock()
+					}
+				}()
+				m := j.Group[g]
+				// loading the package takes a hundred times longer than generating: load everywhere first, then let all
+				// instances generate at the same moment
+				mk, err := moq.New(moq.Config{SrcDir: m.SrcDir, PkgName: m.PkgName, Formatter: m.Fmt, StubImpl: m.Stub, SkipEnsure: m.Skip, WithResets: m.Resets})
+				loaded.Done()
+				<-start
+				if err != nil {
+					errs[g] = err.Error()
+					return
+				}
+				w := &slowWriter{}
+				if err := mk.Mock(w, m.Names...); err != nil {
+					errs[g] = err.Error()
+					return
+				}
+				outs[g] = w.buf.String()
+			}(g)
+		}
+		wg.Wait()
+		for g := 0; g < n; g++ {
+			if round == 0 {
+				res.Outputs[g], res.Errs[g] = outs[g], errs[g]
+			} else if outs[g] != res.Outputs[g] || errs[g] != "" {
+				// keep the deviating output: the harness compares with the fresh-process reference
+				res.Outputs[g] = outs[g]
+				if errs[g] != "" {
+					res.Errs[g] = errs[g]
+				}
+			}
+		}
+	}
+	return res
 }
 
 // monWriter counts Write calls and can fail after a number of bytes.
@@ -555,12 +703,119 @@ func runC14(prop, tier string) int {
 		}
 		wg.Wait()
 	}
+	// --- fresh instances running at the same time in one process (absolute SrcDir, slow writers)
+	concurrentInstances(run, work, jobs, ok, firsts, tier)
+	// --- the -out file after a different, larger generation was written there first
+	outHistories(run, mq, work, jobs, ok, firsts)
 	// --- edit history: the interface gains a method between two fresh instances of one process
 	editHistories(run, mq, work, jobs, ok)
 	return run.Finish()
 }
 
+// concurrentInstances generates requests with many fresh Mockers at once inside one process; every output must
+// equal the output of a fresh process.
+func concurrentInstances(run *evid.Run, work string, jobs []job, ok []bool, firsts [][]byte, tier string) {
+	conc, maxJobs := 12, 12
+	if tier == "thorough" {
+		conc, maxJobs = 24, 80
+	}
+	var ljobs []libJob
+	var idx []int
+	for i, j := range jobs {
+		if !ok[i] || len(ljobs) >= maxJobs {
+			continue
+		}
+		c := j.c
+		var names []string
+		for k, ifc := range c.Ifaces {
+			if c.MockNames[k] != "" {
+				names = append(names, ifc.Name+":"+c.MockNames[k])
+			} else {
+				names = append(names, ifc.Name)
+			}
+		}
+		ljobs = append(ljobs, libJob{SrcDir: filepath.Join(j.dir, c.Tree.SrcDir), PkgName: c.PkgName, Fmt: c.Fmt, Stub: c.Stub, Skip: c.SkipEnsure, Resets: c.WithResets, Names: names, Concurrent: conc})
+		idx = append(idx, i)
+	}
+	if len(ljobs) == 0 {
+		return
+	}
+	for _, procs := range []string{"1", "4", ""} {
+		group := libJob{Group: ljobs, Concurrent: conc / 4}
+		resAll, err := runLibDriverEnv(work, "conc"+procs+".json", []libJob{group}, procs)
+		if err != nil || len(resAll) != 1 {
+			run.Inconc("library driver (concurrent)")
+			continue
+		}
+		r := resAll[0]
+		run.Add("concurrent_library_generations", len(ljobs)*group.Concurrent)
+		if r.Panic != "" {
+			run.Violation(fmt.Sprintf("a Mocker running concurrently with %d others panicked (GOMAXPROCS=%q): %s", len(ljobs)-1, procs, r.Panic), nil)
+			continue
+		}
+		for k := range ljobs {
+			j := jobs[idx[k]]
+			run.Eval("concurrent-library|" + j.c.Key())
+			if r.Errs[k] != "" || r.Outputs[k] != string(firsts[idx[k]]) {
+				what := r.Errs[k]
+				if what == "" {
+					what = firstDiff(firsts[idx[k]], []byte(r.Outputs[k]))
+				}
+				files := replayFiles(j.c, runner.Result{Stdout: firsts[idx[k]]}, nil)
+				files["concurrent_output.go.txt"] = r.Outputs[k]
+				run.Violation(fmt.Sprintf("seed=%d argv=%v :: a fresh Mocker generating while %d other fresh Mockers generate other requests in the same process (GOMAXPROCS=%q) differs from a fresh process: %s", j.c.Tree.Seed, j.c.Args(), len(ljobs)-1, procs, what), files)
+			}
+		}
+	}
+}
+
+// outHistories writes a larger, different generation to -out first and then the request itself: the file must
+// equal the request's stdout-mode output (the same inputs give the same bytes whatever an earlier run left).
+func outHistories(run *evid.Run, mq *runner.Moq, work string, jobs []job, ok []bool, firsts [][]byte) {
+	n := 0
+	for i, j := range jobs {
+		c := j.c
+		if !ok[i] || len(c.Ifaces) != 1 || n >= 8 {
+			continue
+		}
+		// the earlier, larger generation: the same interface plus another one of the tree
+		var other *gen.Iface
+		for _, o := range c.Tree.Ifaces {
+			if o != c.Ifaces[0] && o.Exportable == c.Ifaces[0].Exportable && !o.NeedsSkipEnsure && len(o.Methods) > 0 && len(o.TParams) == 0 {
+				other = o
+				break
+			}
+		}
+		if other == nil {
+			continue
+		}
+		n++
+		out := filepath.Join(work, fmt.Sprintf("hist%03d", n), "mock_out.go")
+		big := *c
+		big.Ifaces = []*gen.Iface{c.Ifaces[0], other}
+		big.MockNames = []string{c.MockNames[0], ""}
+		cwd := cwdOf(j.dir, c)
+		r1 := mq.Run(cwd, append([]string{"-out", out}, big.Args()...), runner.Opts{})
+		r2 := mq.Run(cwd, append([]string{"-out", out}, c.Args()...), runner.Opts{})
+		if r1.Exit != 0 || r2.Exit != 0 {
+			continue
+		}
+		got, _ := os.ReadFile(out)
+		run.Eval("out-history|" + c.Key())
+		run.Add("out_histories", 1)
+		if !bytes.Equal(got, firsts[i]) {
+			files := replayFiles(c, runner.Result{Stdout: firsts[i]}, nil)
+			files["out_after_history.go.txt"] = string(got)
+			run.Violation(fmt.Sprintf("seed=%d argv=%v :: the -out file written after an earlier, larger generation differs from the output of the same request (%d vs %d bytes): %s", c.Tree.Seed, c.Args(), len(got), len(firsts[i]), firstDiff(firsts[i], got)), files)
+		}
+	}
+}
+
 func runLibDriver(work, name string, part []libJob) ([]libResult, error) {
+	return runLibDriverEnv(work, name, part, "")
+}
+
+func runLibDriverEnv(work, name string, part []libJob, gomaxprocs string) ([]libResult, error) {
 	jf := filepath.Join(work, name)
 	b, _ := json.Marshal(part)
 	if err := os.WriteFile(jf, b, 0o644); err != nil {
@@ -569,6 +824,9 @@ func runLibDriver(work, name string, part []libJob) ([]libResult, error) {
 	exe, _ := os.Executable()
 	cmd := exec.Command(exe, "libdriver", jf)
 	cmd.Env = runner.ChildEnv()
+	if gomaxprocs != "" {
+		cmd.Env = append(cmd.Env, "GOMAXPROCS="+gomaxprocs)
+	}
 	out, err := cmd.CombinedOutput()
 	if err != nil {
 		return nil, fmt.Errorf("%v: %s", err, trunc(string(out), 400))
@@ -682,6 +940,16 @@ func runC15(prop, tier string) int {
 			js = append(js, c15job{t, c, k})
 		}
 	}
+	// same-named packages imported bare by different source files, both interfaces mocked into one file whose name
+	// sorts before, between or after those files
+	mt := gen.NewMatrixTree("stale-regen", hz)
+	mo := gen.DefaultCaseOpts
+	mo.PerIface, mo.Multi, mo.OtherDest = 0, 0, 0
+	for k, c := range gen.Cases(mt, rand.New(rand.NewSource(seed)), mo) {
+		if c.Dest == 0 || c.Dest == 1 {
+			js = append(js, c15job{mt, c, 3 + k%3}) // f0_zmock.go, a_mock.go, f1_zmock.go
+		}
+	}
 	priors := []string{"absent", "own", "older", "garbage", "badutf8", "otherpkg", "syntaxerr"}
 	runner.ParallelW(len(js), 16, func(worker, i int) {
 		j := js[i]
@@ -693,7 +961,9 @@ func runC15(prop, tier string) int {
 		}
 		reset()
 		cwd := cwdOf(root, c)
-		outName := []string{"moq_gen.go", "mocks_test.go", "zz_mock.go"}[j.k%3]
+		// names that sort before, between and after the source files (f0.go f1.go f2.go types.go): aliases are
+		// harvested file by file in name order
+		outName := []string{"moq_gen.go", "mocks_test.go", "zz_mock.go", "f0_zmock.go", "a_mock.go", "f1_zmock.go"}[j.k%6]
 		outRel := outName
 		if c.CwdRoot {
 			outRel = filepath.Join(j.t.SrcDir, outName)
@@ -796,6 +1066,10 @@ func runC15(prop, tier string) int {
 				os.Remove(tr.LogPath)
 			} else {
 				res = mq.Run(cwd, rmArgs, runner.Opts{})
+			}
+			if traced && res.Exit != 0 && bytes.Contains(res.Stderr, []byte("strace:")) {
+				run.Inconc("strace failed: " + firstLine(string(res.Stderr)))
+				continue
 			}
 			run.Eval(key("rm-prior-" + pr))
 			run.Add("rm_runs_prior_"+pr, 1)
